@@ -24,6 +24,8 @@ type PropDef struct {
 	Mutate  func(g *gen.G, c *core.Case)
 	Oracle  func(*oracle.Ctx) []oracle.Violation
 	Confirm bool // type-check based: confirm with the real toolchain before reporting
+	// Enumerate returns a finite sub-space that is evaluated completely (by shard 0) before the random campaign
+	Enumerate func() []*core.Case
 }
 
 var Props = map[string]*PropDef{}
@@ -234,3 +236,40 @@ func (h *Harness) Property(def *PropDef) func(*rapid.T) {
 	}
 }
 
+// RunEnumerated evaluates the finite sub-space of a property completely. It returns the first violation.
+func (h *Harness) RunEnumerated(def *PropDef) *oracle.Violation {
+	if def.Enumerate == nil {
+		return nil
+	}
+	for _, c := range def.Enumerate() {
+		c.Prop = h.St.Prop
+		vs, x := h.RunCase(def, c, true)
+		if x == nil {
+			continue
+		}
+		h.St.Evaluations++
+		h.St.Notes["enumerated_cases"]++
+		for k, v := range x.Notes {
+			h.St.Notes[k] += v
+		}
+		if x.NonTrivial {
+			h.nt[c.Hash()] = true
+		}
+		if len(vs) > 0 {
+			v := vs[0]
+			c.Oracle, c.Note = v.Oracle, v.Msg
+			failDir := filepath.Join(h.Scratch, "fail")
+			_ = os.RemoveAll(failDir)
+			_ = c.Save(failDir)
+			b, _ := json.MarshalIndent(v, "", " ")
+			_ = os.WriteFile(filepath.Join(failDir, "violation.json"), b, 0o644)
+			if x.Res != nil {
+				_ = os.WriteFile(filepath.Join(failDir, "judged_output.go.txt"), x.Judged, 0o644)
+			}
+			h.failed = true
+			return &v
+		}
+	}
+	h.St.Notes["enumeration_complete"] = 1
+	return nil
+}
